@@ -76,6 +76,23 @@ def groups(R, thorough):
     g.append(("ed_keypair", "ed_keypair", [(l, s, None) for l, s in secrets32(R, "ek", kc)]))
     g.append(("ed_sign/msg96", "ed_sign", [(l, s, None) for l, s in secrets32(R, "es", kc)]))
     g.append(("ed_sign/msg0", "ed_sign", [(l, s, []) for l, s in secrets32(R, "es0", kc)]))
+    # signing with hand-built extended keys: scalar halves below and above the group order, clamped and not
+    L_ = (1 << 252) + 27742317777372353535851937790883648493
+    pre = vlib.prng_bytes(R.seed, "c19/extprefix", 32)
+    le = lambda v: list(v.to_bytes(32, "little"))
+    exts = [("scalar=0", le(0)), ("scalar=8", le(8)), ("scalar=L-1", le(L_ - 1)), ("scalar=L", le(L_)), ("scalar=L+1", le(L_ + 1)), ("scalar=2^252-1", le((1 << 252) - 1)),
+            ("scalar=clamped-seeded", le(((int.from_bytes(bytes(vlib.prng_bytes(R.seed, "c19/exts", 32)), "little") >> 3 << 3) | (1 << 254)) % (1 << 255))), ("scalar=2^255-8", le((1 << 255) - 8)),
+            ("scalar=seeded-small", le(int.from_bytes(bytes(vlib.prng_bytes(R.seed, "c19/exts2", 32)), "little") >> 5))]
+    g.append(("ed_sign_ext/msg96", "ed_sign_ext", [(l, s + pre, None) for l, s in exts[: (len(exts) if thorough else 6)]]))
+    g.append(("ed_exchange", "ed_exchange", [(l, s, None) for l, s in secrets32(R, "ex", kc)]))
+    g.append(("x25519_newtype", "x25519_newtype", [(l, s, None) for l, s in secrets32(R, "xn", kc)]))
+    # AEAD tag verification: the candidate tag is right, or wrong from byte i on / in byte i only, for every i, through the one-shot and the incremental interface
+    masks = [("tag:right", [0] * 16)]
+    for i in range(16):
+        masks.append(("tag:byte%d" % i, [0] * i + [1 << (i % 8)] + [0] * (15 - i)))
+        masks.append(("tag:from%d" % i, [0] * i + [0xff] * (16 - i)))
+    for v in ("aead_decrypt", "aead_finalize"):
+        g.append((v, v, [(l, m, None) for l, m in masks]))
     km = 30 if thorough else 8
     for mname, msg in (("seq96", None), ("ff32", [255] * 32), ("ff16", [255] * 16), ("ff47", [255] * 47), ("zero64", [0] * 64)):
         # keys with r in {1, 2, 4} (single-bit), saturated r, seeded: the final reduction h >= p must not be a branch
